@@ -119,7 +119,7 @@ func TestCheck(t *testing.T) {
 			break
 		}
 		if env.Shard == 0 {
-			runSeq(env, rep, "C19", 4, 6, false)
+			runSeq(env, rep, "C19", 4, 7, false)
 		}
 		runSched(t, env, rep, map[string]bool{"C19": true}, "sched-handle-taken-while-a-poll-is-in-flight", lookupScenarios()[2:3], 2, 3)
 	case "C10":
